@@ -68,3 +68,33 @@ Proof.
   destruct M as ([b cb] & M). unfold search.
   destruct (Ipv4Token.search_from_finds s _ (Rx.slen s) 0 i b cb M ltac:(lia) ltac:(unfold Rx.slen; lia)) as (a' & b' & c'' & S & _). rewrite S. discriminate.
 Qed.
+
+(* ======== every pattern of the GENERATED secrets table starts with the same look-behind: a secrets match never begins in the middle of a word ======== *)
+Lemma every_line_pattern_starts_with_the_look_behind : Forall (fun it : re * option nat * option nat => exists r, fst (fst it) = Seq PRE r) (concat PWD_REGEXES).
+Proof. unfold PWD_REGEXES. cbn [concat app]. repeat (constructor; [eexists; reflexivity|]). constructor. Qed.
+
+Lemma space_only x : in_cset x cs22 = true -> x = 32%N.
+Proof. cbn [cs22 in_cset existsb fst snd xorb]. rewrite orb_false_r. destruct (N.leb_spec 32 x), (N.leb_spec x 32); cbn [andb]; intro Hx; try discriminate; lia. Qed.
+Lemma den_chr_inv (s : list chr) cs i j : den s (Chr cs) i j -> j = S i /\ exists x, nth_error s i = Some x /\ in_cset x cs = true.
+Proof. intro D. inversion D; subst. split; [reflexivity|eauto]. Qed.
+
+Theorem secrets_match_starts_at_a_word_boundary (s : list chr) (it : re * option nat * option nat) i c j c' :
+  In it (concat PWD_REGEXES) -> In (j, c') (ms s (fst (fst it)) i c) ->
+  i = 0 \/ (1 <= i /\ exists x, nth_error s (i - 1) = Some x /\ (in_cset x cs21 = true \/ x = 32%N)).
+Proof.
+  intros Hin H. pose proof every_line_pattern_starts_with_the_look_behind as F. rewrite Forall_forall in F. destruct (F it Hin) as (r & E). rewrite E in H.
+  apply ms_den in H. inversion H as [| |a b i0 j1 k D1 D2| | | | | | | | | |]; subst; clear H D2.
+  assert (Hlb : forall w a, den s (Look false false w a) i j1 -> j1 = i /\ w <= i /\ den s a (i - w) i) by (intros w a D; inversion D; subst; auto).
+  unfold PRE in D1.
+  inversion D1 as [| | |a b i0 j0 Da|a b i0 j0 Db| | | | | | | |]; subst; clear D1.
+  - destruct (Hlb _ _ Da) as (_ & Hw & D). apply den_chr_inv in D as (_ & x & Hx & Ex). right. split; [exact Hw|]. exists x. split; [exact Hx|now left].
+  - inversion Db as [| | |a b i0 j0 Da2|a b i0 j0 Db2| | | | | | | |]; subst; clear Db.
+    + destruct (Hlb _ _ Da2) as (_ & Hw & D). inversion D as [| |a' b' i1 j2 k1 E1 E2| | | | | | | | | |]; subst.
+      apply den_chr_inv in E1 as (-> & _). apply den_chr_inv in E2 as (Ej & x & Hx & Ex). apply space_only in Ex. subst x.
+      right. split; [lia|]. exists 32%N. split; [|now right]. replace (i - 1) with (S (i - 2)) by lia. exact Hx.
+    + inversion Db2 as [| | |a b i0 j0 Da3|a b i0 j0 Db3| | | | | | | |]; subst; clear Db2.
+      * destruct (Hlb _ _ Da3) as (_ & _ & D). inversion D; subst. left. lia.
+      * destruct (Hlb _ _ Db3) as (_ & Hw & D). inversion D as [| |a' b' i1 j2 k1 E1 E2| | | | | | | | | |]; subst.
+        inversion E1; subst. apply den_chr_inv in E2 as (Ej & x & Hx & Ex). apply space_only in Ex. subst x.
+        right. split; [exact Hw|]. exists 32%N. split; [|now right]. replace (i - 1) with 0 by lia. exact Hx.
+Qed.
